@@ -1,4 +1,5 @@
 import KonstVerif.Model.Concat
+import KonstVerif.Model.ConcatHyg
 import KonstVerif.Model.CStr
 import KonstVerif.Spec.Concat
 import KonstVerif.Lemmas.Concat
@@ -430,5 +431,81 @@ example : IsCStr [0x61, 0] := ⟨by decide, by decide⟩
 example : fromBytesWithNul [0x61, 0, 0] = .err (.internalNul 1) := by decide
 example : fromBytesUntilNul [0x61, 0x62] = none := by decide
 example : toBytesWithNul [0x61, 0x62] = none := by decide
+
+/-! ## name hygiene of the expansions (`Model/ConcatHyg.lean`)
+
+  For every identifier `n` and every kind of item the caller may have declared under that name: the
+  invocation means what the caller wrote (`Hyg.transparent`: `n`, mentioned inside the macro argument,
+  still resolves to the caller's item and no binding of the expansion collides with it) EXACTLY when
+  `n` is none of the listed names. For `str_concat!`, `str_join!` and the list argument of
+  `slice_concat!` the only reserved name is the mangled value `__ARGS_81608BFNA5`; the helper
+  constants live in an inner block the argument is not pasted into, and they are mangled as well
+  (`__LEN_81608BFNA5`, ..; since commit 450faa1 — findings F20a/F20b: they used to be `LEN`, `CONC`,
+  `STR`, visible to the element type of `slice_concat!`, and `ArrayStr<LEN>` named a caller TYPE). -/
+section Hygiene
+open Konst.Concat.Hyg
+
+theorem stringConcat_transparent_iff (d : UserDecl) (n : String) :
+    transparent stringConcatSk "slice" d n = true ↔ ¬ (d.ns = .val ∧ n = "__ARGS_81608BFNA5") := by
+  cases d <;> simp [transparent, captured, binderClash, gargClash, stringConcatSk, lenConcStr, holes,
+    holesL, binders, bindersL, gargsFree, gargsFreeL, decl, UserDecl.ns, UserDecl.shadowable]
+
+theorem stringJoin_transparent_iff (frag : String) (hf : frag = "sep" ∨ frag = "slice")
+    (d : UserDecl) (n : String) :
+    transparent stringJoinSk frag d n = true ↔ ¬ (d.ns = .val ∧ n = "__ARGS_81608BFNA5") := by
+  rcases hf with rfl | rfl <;> cases d <;>
+    simp [transparent, captured, binderClash, gargClash, stringJoinSk, lenConcStr, holes, holesL,
+      binders, bindersL, gargsFree, gargsFreeL, decl, UserDecl.ns, UserDecl.shadowable]
+
+theorem sliceConcat_slice_transparent_iff (d : UserDecl) (n : String) :
+    transparent sliceConcatSk "slice" d n = true ↔ ¬ (d.ns = .val ∧ n = "__ARGS_81608BFNA5") := by
+  cases d <;> simp [transparent, captured, binderClash, gargClash, sliceConcatSk, holes, holesL,
+    binders, bindersL, gargsFree, gargsFreeL, decl, UserDecl.ns, UserDecl.shadowable]
+
+/-- the ELEMENT TYPE of `slice_concat!` is pasted a second time inside the inner block
+    (`const __CONC_81608BFNA5: [$elem_ty; __LEN_81608BFNA5]`): only the mangled names are reserved
+    there (`slice_concat!([u8; LEN], ..)` with a caller constant `LEN` is fine) -/
+theorem sliceConcat_elemTy_transparent_iff (d : UserDecl) (n : String) :
+    transparent sliceConcatSk "elem_ty" d n = true ↔
+      ¬ (d.ns = .val ∧
+          (n = "__ARGS_81608BFNA5" ∨ n = "__LEN_81608BFNA5" ∨ n = "__CONC_81608BFNA5")) := by
+  cases d <;> simp [transparent, captured, binderClash, gargClash, sliceConcatSk, holes, holesL,
+    binders, bindersL, gargsFree, gargsFreeL, decl, UserDecl.ns, UserDecl.shadowable] <;> grind
+
+/-- items / const generic of the `from_iter!` expansion that are visible to the iterator arguments -/
+def fromIterItems : List String :=
+  ["CAP_KO9Y329U2U", "__func_zxe7hgbnjs", "__COUNT81608BFNA5", "__ARR81608BFNA5", "__STR81608BFNA5"]
+/-- identifier patterns of the `from_iter!` expansion (they cannot shadow a caller `const`/`static`) -/
+def fromIterBinders : List String :=
+  ["cmd", "array", "written_length", "iter", "elem_phantom_ty", "item", "elem_", "next_", "teq",
+   "byteser", "bytes", "item_len", "i", "j", "x"]
+
+theorem strFromIter_transparent_iff (d : UserDecl) (n : String) :
+    transparent strFromIterSk "rem" d n = true ↔
+      ¬ ((d.ns = .val ∧ n ∈ fromIterItems) ∨
+         (d.ns = .ty ∧ (n = "Ret_KO9Y329U2U" ∨ n = "CAP_KO9Y329U2U")) ∨
+         (d.shadowable = false ∧ n ∈ fromIterBinders)) := by
+  cases d <;> simp [transparent, captured, binderClash, gargClash, strFromIterSk, holes, holesL,
+    binders, bindersL, gargsFree, gargsFreeL, decl, UserDecl.ns, UserDecl.shadowable, fromIterItems,
+    fromIterBinders] <;> grind
+
+/-- the model IS sensitive to the inner block and to the names: without the inner block the helper
+    constants are in the argument's scope, and under their old plain names a caller constant `STR`
+    inside the argument was captured -/
+example : transparent (.block (.item .val "__ARGS_81608BFNA5" [] [.hole "slice"] :: lenConcStr))
+    "slice" .const "__STR_81608BFNA5" = false := by decide
+example : transparent (.block [.item .val "__ARGS_81608BFNA5" [] [.hole "slice"],
+    .item .val "LEN" [] [], .item .val "CONC" [] [.garg "LEN"], .item .val "STR" [] []])
+    "slice" .const "STR" = false := by decide
+example : transparent stringConcatSk "slice" .const "__STR_81608BFNA5" = true := by decide
+example : transparent stringConcatSk "slice" .const "STR" = true := by decide
+example : transparent strFromIterSk "rem" .const "i" = false := by decide
+example : transparent strFromIterSk "rem" .fn "i" = true := by decide
+example : transparent stringJoinSk "sep" .tyAlias "LEN" = true := by decide
+example : transparent sliceConcatSk "elem_ty" .const "LEN" = true := by decide
+example : transparent sliceConcatSk "elem_ty" .const "__LEN_81608BFNA5" = false := by decide
+example : transparent strFromIterSk "rem" .tyAlias "CAP_KO9Y329U2U" = false := by decide
+
+end Hygiene
 
 end Konst.Props.C20
